@@ -42,15 +42,34 @@ func (o Out) Replies() int { return len(o.Sent) + len(o.Frames) }
 
 var v4mu sync.Mutex // the L2 frame sink is process-global
 
+// Fault is the environment fault in force for Run4/Run6 (single-threaded callers set it
+// around a pass): SendErr makes every socket write fail with that error, FrameErr makes the
+// raw-socket boundary of sendEthernet fail with that error. What was handed to the socket
+// is still recorded (VerifSent.Failed).
+var Fault struct {
+	SendErr  error
+	FrameErr error
+}
+
+func sendErr() func(server.VerifSent) error {
+	if Fault.SendErr == nil {
+		return nil
+	}
+	e := Fault.SendErr
+	return func(server.VerifSent) error { return e }
+}
+
 // Run4 handles one DHCPv4 datagram. ifi zero value = unbound listener; oobIf 0 = no
 // control message.
 func Run4(ifi net.Interface, hs []handler.Handler4, dgram []byte, oobIf int, peer *net.UDPAddr) (out Out) {
 	v4mu.Lock()
 	defer v4mu.Unlock()
-	l := server.NewVerifListener4(ifi, hs, &server.VerifIO{Sent: func(s server.VerifSent) { out.Sent = append(out.Sent, s) }})
+	l := server.NewVerifListener4(ifi, hs, &server.VerifIO{Sent: func(s server.VerifSent) { out.Sent = append(out.Sent, s) }, SendErr: sendErr()})
 	defer l.Release()
 	server.VerifSetFrameSink(func(f server.VerifFrame) { out.Frames = append(out.Frames, f) })
 	defer server.VerifSetFrameSink(nil)
+	server.VerifSetFrameFault(Fault.FrameErr)
+	defer server.VerifSetFrameFault(nil)
 	var oob *ipv4.ControlMessage
 	if oobIf != 0 {
 		oob = &ipv4.ControlMessage{IfIndex: oobIf}
@@ -72,7 +91,7 @@ func Run4(ifi net.Interface, hs []handler.Handler4, dgram []byte, oobIf int, pee
 
 // Run6 handles one DHCPv6 datagram.
 func Run6(ifi net.Interface, hs []handler.Handler6, dgram []byte, oobIf int, peer *net.UDPAddr) (out Out) {
-	l := server.NewVerifListener6(ifi, hs, &server.VerifIO{Sent: func(s server.VerifSent) { out.Sent = append(out.Sent, s) }})
+	l := server.NewVerifListener6(ifi, hs, &server.VerifIO{Sent: func(s server.VerifSent) { out.Sent = append(out.Sent, s) }, SendErr: sendErr()})
 	defer l.Release()
 	var oob *ipv6.ControlMessage
 	if oobIf != 0 {
